@@ -129,9 +129,14 @@ def _prime_opcode_tracing():
 
 
 class DSched:
-    def __init__(self, policy, line_files=(), opcode_codes=(), max_steps=200000, line_points=True):
+    def __init__(self, policy, line_files=(), opcode_codes=(), max_steps=200000, line_points=True, focus_codes=None):
         _prime_opcode_tracing()
         self.policy = policy
+        # focus (optional): code objects; when given, a running thread reaches pre-emption points (`op`, `line`, `acq`, `rel`)
+        # only while one of these functions is on its call stack - the rest of every thread runs without being pre-empted.
+        # A subset of the schedules, all of them genuine; small enough to ENUMERATE every schedule with two pre-emptions
+        # inside the functions that touch one shared attribute (timer expiry racing with a cancellation, ...).
+        self.focus_codes = None if focus_codes is None else set(focus_codes)
         self.line_files = set(line_files)
         self.opcode_codes = set(opcode_codes)      # code objects traced at opcode granularity
         self.line_points = line_points
@@ -257,9 +262,19 @@ class DSched:
         if self.aborting:
             raise SchedAbort()
 
+    def _in_focus(self):
+        f = sys._getframe(2)
+        while f is not None:
+            if f.f_code in self.focus_codes:
+                return True
+            f = f.f_back
+        return False
+
     def yield_point(self, kind):
         me = self.me()
         if me is None or self.current != me.tid:
+            return
+        if self.focus_codes is not None and kind != "start" and not self._in_focus():
             return
         self._switch(me, kind, True)
 
@@ -441,6 +456,21 @@ class STimer:
 
         self.ts = s.spawn(body, name=f"tm{len(s.timers)}[{self.creator}]")
         s.yield_point("start")
+
+    def adopt(self, s, name=None):
+        """a timer started BEFORE the scheduled run (sequential set-up on the main thread) gets its thread now: it may
+        expire at any point of the run, `cancel()` is honoured iff it comes before the thread's check"""
+        if self.ts is not None or not self.started or self.cancelled:
+            return None
+
+        def body():
+            if not self.cancelled:
+                self.fired = True
+                self.function(*self.args, **self.kwargs)
+
+        s.timers.append(self)
+        self.ts = s.spawn(body, name=name or f"tm{len(s.timers)}[pre]")
+        return self.ts
 
     def cancel(self):
         self.cancelled = True
